@@ -14,21 +14,28 @@ CLAIMED = {
          "the model and oracles in sim/worlds/io.py are trusted; KML/GeoJSON/NMEA and feature columns are out of scope.",
          "§4 C13"),
  "C01": ("track", "Seeded search over long operation histories (create / update / delete / bracket assignment / "
-         "operator objects / expression shapes / rejected requests / forked copies) on long-lived tracks, checked "
-         "after every step against an independent column model with unique values.",
-         "In-memory world: the only injected fault is the documented rejected request; expression grammar beyond "
-         "the listed shapes is C02's subject; model in sim/worlds/track.py is trusted.", "§4 C01"),
- "C04": ("track", "Seeded search over histories of sort / chronological insert / removal / slicing operators on "
-         "one long-lived track with duplicate timestamps and feature columns, each result compared with a list model "
-         "and the source track compared before/after.",
-         "In-memory world, no faults beyond rejected requests; model in sim/worlds/track.py is trusted.", "§4 C04"),
- "C17": ("track", "Seeded search over histories that recompute abs_curv / speed on the same track after deletions "
-         "and other feature operations (the cached-feature paths), compared with the geometric definitions.",
+         "every operator object / random expression trees of 2..14 operator applications / rejected requests / "
+         "user callables that raise at a seeded invocation / operators refusing values outside their domain / forked, "
+         "span-copied and noised copies) on long-lived tracks of several interleaved sessions, checked after every "
+         "step against an independent column model with unique values.",
+         "In-memory world: injected faults are refused requests, failing user callables and provoked domain errors "
+         "(never pre-emption inside library code); values of operators without a one-line definition are adopted, "
+         "not judged; atomicity of a refused call is not demanded; model in sim/worlds/track.py is trusted.", "§4 C01"),
+ "C04": ("track", "Seeded search over histories of sort / sortRadix / chronological insert / removal / pop / slicing, "
+         "span, concatenation, decimation and trimming operators on long-lived tracks with duplicate timestamps, calendar "
+         "boundaries and feature columns; results kept as sessions of their own (span copies, reversed copies, "
+         "concatenations holding one Obs twice); each result compared with a list model and the source compared before/after.",
+         "In-memory world, faults are refused requests only; model in sim/worlds/track.py is trusted.", "§4 C04"),
+ "C17": ("track", "Seeded search over histories that recompute abs_curv / speed / ds on the same track after deletions, "
+         "other feature operations, in-place transformations and timestamp edits (the cached-feature paths, the "
+         "always-recomputing addAnalyticalFeature path, caller-computed ds), on several interleaved sessions including "
+         "noised and span copies, compared with the geometric definitions.",
          "Thin claim: the arithmetic is a pure function and only sampled; a cache that predates a geometry edit is "
          "recorded, not judged.", "§4 C17"),
  "C06": ("net", "Seeded search over query histories on long-lived growing multigraphs (single pair, one-to-all, "
-         "all-pairs with cut-off, prepared tables, reload from simulated disk), every answer compared with "
-         "Floyd-Warshall on an independent model.",
+         "all-pairs with cut-off, prepared tables modelled exactly incl. accumulation, edge re-weighing, sub-network "
+         "extraction sharing objects with its parent, network reload and save_prep / load_prep on the simulated disk "
+         "with open/read/write errors), every answer compared with Floyd-Warshall on an independent model.",
          "Weights are small dyadic rationals or geometric lengths; single-pair queries with finite cut are not "
          "generated; model in sim/worlds/net.py is trusted.", "§4 C06"),
  "C07": ("net", "Same histories with shortest_path: node list is a permitted walk of optimal weight and the geometry "
@@ -36,7 +43,8 @@ CLAIMED = {
          "As C06.", "§4 C07"),
  "C10": ("net", "Seeded search over sequences of map-matching calls that share module globals, a network, its spatial "
          "index and prepared distances (two alternating sessions, re-mapping, growth between calls, networks loaded "
-         "from simulated disk); every inferred state checked geometrically.",
+         "from simulated disk, unit change in place, interrupts inside the matching, I/O errors on its debug file); "
+         "every inferred state checked geometrically.",
          "HMM optimality is C09's subject and not judged; networks with degenerate extent are not indexed.", "§4 C10"),
 }
 NA = {
